@@ -466,3 +466,43 @@ func helperSuccessResults(v ssa.Value) (*ssa.Call, []helperResult) {
 	})
 	return call, out
 }
+
+// callsOrHelpers lists the calls of specs in fn and the calls in fn of extracted
+// single-call-site helpers that (statically) reach one of specs: for ordering rules the
+// helper call stands for the operation it wraps.
+func (h *H) callsOrHelpers(fn *ssa.Function, specs ...ir.Callee) []ssa.CallInstruction {
+	out := h.P.CallsIn(fn, specs...)
+	ir.Instrs(fn, func(in ssa.Instruction) {
+		ci, ok := in.(ssa.CallInstruction)
+		if !ok {
+			return
+		}
+		g := ci.Common().StaticCallee()
+		if g == nil || ir.SingleCallSite(g) != ci || g.Blocks == nil {
+			return
+		}
+		if h.P.CallStaticallyReaches(ci, h.P.MatchPred(specs...)) {
+			out = append(out, ci)
+		}
+	})
+	return out
+}
+
+// bindRegion activates, for the extracted single-call-site helpers of root, the binding
+// of their parameters to the arguments of their only call, so that values inside a helper
+// compare equal (Canon / SameExpr) to the caller's values. Returns the restore function.
+func bindRegion(root *ssa.Function) func() {
+	b := ir.Binding{}
+	for _, g := range helperFuncs(root)[1:] {
+		site := ir.SingleCallSite(g)
+		if site == nil {
+			continue
+		}
+		for i, p := range g.Params {
+			if i < len(site.Common().Args) {
+				b[p] = site.Common().Args[i]
+			}
+		}
+	}
+	return ir.Bind(b)
+}
